@@ -12,6 +12,52 @@ type Case struct {
 	Val   any
 	Ok    bool
 	rc    reflect.SelectCase
+	ptr   uintptr // channel identity
+	unbuf bool    // unbuffered channel (rendezvous emulation)
+	send  bool
+	val   any  // value of a send clause
+	taken bool // a receiver took the value of this parked send clause
+}
+
+// Unbuffered channels: a send can only complete together with a receive. The real channel cannot be used for
+// that (the partner goroutine is parked on its baton, not in the channel operation), so the rendezvous is
+// emulated: a receiver parked on the channel makes a send ready, the value travels through a per-channel
+// mailbox; a sender parked on the channel makes a receive ready, the receiver takes the value from the parked
+// clause. A non-blocking send (select with default) finds no partner unless a receiver is really parked.
+func chanPtr(ch any) uintptr {
+	v := reflect.ValueOf(ch)
+	if !v.IsValid() || v.IsNil() {
+		return 0
+	}
+	return v.Pointer()
+}
+
+func (s *sched) parkedReceiver(ptr uintptr, self *thread) *thread {
+	for _, t := range s.threads {
+		if t == self || t.finished || t.claimed {
+			continue
+		}
+		for _, p := range t.recvOn {
+			if p == ptr {
+				return t
+			}
+		}
+	}
+	return nil
+}
+
+func (s *sched) parkedSender(ptr uintptr, self *thread) *Case {
+	for _, t := range s.threads {
+		if t == self || t.finished {
+			continue
+		}
+		for _, c := range t.sendOn {
+			if c.ptr == ptr && !c.taken {
+				return c
+			}
+		}
+	}
+	return nil
 }
 
 func closedProbe[T any, C ~chan T | ~<-chan T](ch C) bool {
@@ -37,9 +83,31 @@ func recvReady[T any, C ~chan T | ~<-chan T](ch C) bool {
 
 // CaseRecv builds a receive clause.
 func CaseRecv[T any, C ~chan T | ~<-chan T](ch C) *Case {
-	c := &Case{rc: reflect.SelectCase{Dir: reflect.SelectRecv, Chan: reflect.ValueOf(ch)}}
-	c.ready = func() bool { return recvReady[T](ch) }
+	c := &Case{rc: reflect.SelectCase{Dir: reflect.SelectRecv, Chan: reflect.ValueOf(ch)}, ptr: chanPtr(ch), unbuf: ch != nil && cap(ch) == 0}
+	c.ready = func() bool {
+		if recvReady[T](ch) {
+			return true
+		}
+		if !c.unbuf || !s.active {
+			return false
+		}
+		return len(s.mailbox[c.ptr]) > 0 || s.parkedSender(c.ptr, s.cur) != nil
+	}
 	c.do = func() {
+		if c.unbuf && s.active {
+			if mb := s.mailbox[c.ptr]; len(mb) > 0 {
+				c.Val, c.Ok = mb[0], true
+				s.mailbox[c.ptr] = mb[1:]
+				return
+			}
+			if !recvReady[T](ch) {
+				if ps := s.parkedSender(c.ptr, s.cur); ps != nil {
+					ps.taken = true
+					c.Val, c.Ok = ps.val, true
+					return
+				}
+			}
+		}
 		v, ok := <-ch
 		c.Val, c.Ok = v, ok
 	}
@@ -48,17 +116,34 @@ func CaseRecv[T any, C ~chan T | ~<-chan T](ch C) *Case {
 
 // CaseSend builds a send clause.
 func CaseSend[T any, C ~chan T | ~chan<- T](ch C, v T) *Case {
-	c := &Case{rc: reflect.SelectCase{Dir: reflect.SelectSend, Chan: reflect.ValueOf(ch), Send: reflect.ValueOf(v)}}
+	c := &Case{rc: reflect.SelectCase{Dir: reflect.SelectSend, Chan: reflect.ValueOf(ch), Send: reflect.ValueOf(v)}, ptr: chanPtr(ch), unbuf: ch != nil && cap(ch) == 0, send: true, val: v}
 	c.ready = func() bool {
 		if ch == nil {
 			return false
 		}
-		if cap(ch) == 0 {
-			panic("vsched: send on unbuffered channel is not supported by the harness")
+		if c.unbuf {
+			return c.taken || s.parkedReceiver(c.ptr, s.cur) != nil
 		}
 		return len(ch) < cap(ch)
 	}
-	c.do = func() { ch <- v }
+	c.do = func() {
+		if c.unbuf {
+			if c.taken {
+				return // a receiver already took the value while this thread was parked
+			}
+			r := s.parkedReceiver(c.ptr, s.cur)
+			if r == nil {
+				panic("vsched: unbuffered send resumed without a partner")
+			}
+			r.claimed = true
+			if s.mailbox == nil {
+				s.mailbox = map[uintptr][]any{}
+			}
+			s.mailbox[c.ptr] = append(s.mailbox[c.ptr], v)
+			return
+		}
+		ch <- v
+	}
 	return c
 }
 
@@ -103,7 +188,19 @@ func Select(hasDefault bool, cases ...*Case) int {
 			return false
 		}
 	}
+	if !hasDefault {
+		// while parked, this thread is a partner for rendezvous on unbuffered channels
+		for _, c := range cases {
+			if c.unbuf && c.send {
+				s.cur.sendOn = append(s.cur.sendOn, c)
+			} else if c.unbuf {
+				s.cur.recvOn = append(s.cur.recvOn, c.ptr)
+			}
+		}
+	}
+	self := s.cur
 	Point(KChan, "select", rdy)
+	self.recvOn, self.sendOn, self.claimed = nil, nil, false
 	var idx []int
 	for i, c := range cases {
 		if c.ready() {
@@ -139,6 +236,15 @@ func Recv[T any, C ~chan T | ~<-chan T](ch C) T {
 		var z T
 		return z
 	}
+	if ch != nil && cap(ch) == 0 {
+		c := CaseRecv[T](ch)
+		Select(false, c)
+		if c.Val == nil {
+			var z T
+			return z
+		}
+		return c.Val.(T)
+	}
 	Point(KChan, "recv", func() bool { return recvReady[T](ch) })
 	return <-ch
 }
@@ -152,6 +258,15 @@ func Recv2[T any, C ~chan T | ~<-chan T](ch C) (T, bool) {
 	if s.aborting {
 		var z T
 		return z, false
+	}
+	if ch != nil && cap(ch) == 0 {
+		c := CaseRecv[T](ch)
+		Select(false, c)
+		if c.Val == nil {
+			var z T
+			return z, c.Ok
+		}
+		return c.Val.(T), c.Ok
 	}
 	Point(KChan, "recv", func() bool { return recvReady[T](ch) })
 	v, ok := <-ch
@@ -168,7 +283,8 @@ func Send[T any, C ~chan T | ~chan<- T](ch C, v T) {
 		return
 	}
 	if ch != nil && cap(ch) == 0 {
-		panic("vsched: send on unbuffered channel is not supported by the harness")
+		Select(false, CaseSend[T](ch, v))
+		return
 	}
 	Point(KChan, "send", func() bool { return ch != nil && len(ch) < cap(ch) })
 	ch <- v
